@@ -19,6 +19,18 @@ def corpus() -> List[Dict[str, Any]]:
     return _CORPUS
 
 
+# clients of the static package tree that E2 / E4 run in (sim/e2_history.STATIC_TREE)
+STATIC_TREE_CLIENTS = [
+    'from vs_pure import dumps\n\nprint(dumps({"a": 1}))\n',
+    "from vs_fast import dumps\n\nprint(dumps([1, 2]))\n",
+    "from vs_reexport import lib_func, shown_alias\n\nprint(lib_func(1), shown_alias())\n",
+    "from vs_pkg import *\n\nprint(pkg_func())\n",
+    "from vs_lib import *\n\nprint(lib_func(2), LIB_CONST, LibClass)\n",
+    "from vs_all import *\nfrom vs_lib import *\n\nprint(shown(), lib_func(3))\n",
+    "import vs_pkg.mod\nfrom vs_reexport import LibClass\n\nprint(vs_pkg.mod.other_func(), LibClass)\n",
+]
+
+
 def with_ignore(rng: random.Random, text: str) -> str:
     """Put an ignore comment on a random code line: a rule still *computes* its
     replacement (and may mutate the cached tree) while the transaction is
@@ -127,6 +139,55 @@ def gen_module(rng: random.Random, process_dependent: bool = False, special: boo
         lines.append(rng.choice([f'z = tuple(["{val}", 1])', f'z = list(("{val}", 2))', f'z = set(["{val}"])', f'w = [x for x in ["{val}"]]\nz = list(w)']))
         lines.append("print(z, " + ", ".join(f"s{i}" for i in range(len(spellings))) + ")")
         text = "\n".join(lines) + "\n"
+        try:
+            ast.parse(text)
+            return text
+        except (SyntaxError, ValueError):
+            pass
+    if special and rng.random() < 0.15:
+        # deep nesting: the width left for a statement falls below black's floor of 60 columns, so
+        # "fits in context" and "fits on its own" disagree - a classic split / join oscillation
+        depth = rng.randint(5, 11)
+        heads = ["if {v}:", "for {v} in {v}s:", "while {v}:", "with {v} as ctx_{v}:", "if not {v}:"]
+        lines = ["def deep_nest(values):"]
+        ind = 4
+        for d in range(depth):
+            lines.append(" " * ind + rng.choice(heads).format(v=f"v{d}"))
+            ind += 4
+        call = rng.choice([
+            "result = compute_value(first_argument, second_argument, third)",
+            "total = accumulate(values, initial_value, step_size, limit)",
+            "print(describe(values, separator, prefix, suffix, width))",
+            "outcome = [transform(item, factor) for item in values if item]",
+        ])
+        lines.append(" " * ind + call)
+        lines.append(" " * ind + "return values")
+        text = "\n".join(lines) + "\n\n\nprint(deep_nest([1]))\n"
+        try:
+            ast.parse(text)
+            return text
+        except (SyntaxError, ValueError):
+            pass
+    if special and rng.random() < 0.2:
+        # branches that return, with left-over statements after a return: the shapes on which
+        # swap_if_else / remove_redundant_else / early_return undo each other across passes
+        f = name("settle")
+        a, b = name("order"), name("ledger")
+        cmp1 = rng.choice(["!= 0", "== 0", "> 0", "is None", "is not None"])
+        n_work = rng.randint(1, 3)
+        work = "".join(f"            {b}.step_{i}({a}.account, {a}.amount)\n" for i in range(n_work))
+        tail = rng.choice([
+            f"        return None\n        if {a}.amount > 1000:\n            {b}.flag({a})\n",
+            f"        return None\n",
+            f"        else:\n            return None\n            {b}.flag({a})\n",
+            f"        {b}.note({a})\n        return None\n        {b}.flag({a})\n",
+        ])
+        if tail.lstrip().startswith("else"):
+            body = f"    if {a}.open:\n        if {a}.amount {cmp1}:\n{work}            return {a}.amount\n{tail}"
+        else:
+            body = f"    if {a}.open:\n        if {a}.amount {cmp1}:\n{work}            return {a}.amount\n{tail}"
+        extra = rng.choice(["", f"    return {a}\n", f"    else:\n        return 0\n"])
+        text = f"def {f}({a}, {b}):\n{body}{extra}\n\nprint({f}(None, None))\n"
         try:
             ast.parse(text)
             return text
